@@ -458,8 +458,12 @@ package lisp
 //@   loop 1 (_) invariant [conds] len(env.Runtime.conditionStack) == old(len(env.Runtime.conditionStack))
 //@   loop 1 (_) invariant [depth] env.Runtime.evalDepth == old(env.Runtime.evalDepth)
 //@   ensures  [balanced] BAL(env)
+//@   ensures  [evalctx-restored] env.evalCtx == old(env.evalCtx)
 //@   ensures-on-panic [balanced-on-panic] BAL(env)
+//@   ensures-on-panic [evalctx-restored-on-panic] env.evalCtx == old(env.evalCtx)
 //@   property C05
+
+//@ frame writers(LEnv.evalCtx) subset { } property C05
 
 //@ func (*LEnv).load
 //@   requires rtOK(env)
